@@ -18,6 +18,7 @@ import CV.Drv.Http14
 import CV.Drv.Conn
 import CV.Drv.ClassTable
 import CV.Drv.NodeTwo
+import CV.Drv.WebSocketEndpoint
 /-
 cvdriver <model> : reads op lines on stdin, answers one line per op on stdout.
 Imports only CV.Model.* / CV.Drv.* (no Mathlib) so that it links as an executable.
@@ -28,7 +29,7 @@ def machines : List (String × Machine) :=
   [ ("line", lineMachine), ("irc", ircMachine), ("core", CM.coreMachine), ("core2", CM2.core2Machine),
     ("staticpath", staticPathMachine), ("ranges", rangesMachine),
     ("auth", C20.authMachine), ("session", C20.sessionMachine), ("vhost", C20.vhostMachine),
-    ("httpresp", httprespMachine), ("ws", wsMachine),
+    ("httpresp", httprespMachine), ("ws", wsMachine), ("wse", wseMachine),
     ("http", httpMachine), ("poller", pollerMachine), ("wake", wakeMachine), ("stream", streamMachine), ("node", nodeMachine), ("node2", node2Machine), ("http14", http14Machine), ("conn", C12.connMachine),
     ("classtable", CT.classTableMachine) ]
 
